@@ -32,7 +32,7 @@ ASSUMPTIONS = [
     'with strip=True a cell with ASCII edge whitespace may come back stripped of all edge whitespace (str.strip)',
     'cast_strategy=schema: the reference parse of a cell is tableschema.Field.cast_value with the *emitted* field descriptor',
 ]
-BUDGET = {'quick': dict(examples=1600, shards=8, seconds=70),
+BUDGET = {'quick': dict(examples=3200, shards=16, seconds=70),
           'thorough': dict(examples=100000, shards=16, seconds=1200)}
 
 HEADERS = ['a', 'b', 'A', 'a (1)', 'a (2)', 'col', 'x y', 'é', 'a,b', 'q"t', 'B', 'a-1', 'n']
